@@ -42,6 +42,20 @@ class Broken(Exception):
         self.what, self.detail = what, detail
 
 
+def _go_build(pkg, out, cwd, tags=True):
+    """build to a temporary name and rename over the target: checks may run concurrently, and a running
+    process keeps its (old) inode while the path is replaced atomically"""
+    tmp = "%s.%d.tmp" % (out, os.getpid())
+    cmd = ["go", "build"] + (["-tags", "verif"] if tags else []) + ["-o", tmp, pkg]
+    r = sh(cmd, cwd=cwd, env=GOENV)
+    if r.returncode != 0:
+        if os.path.exists(tmp):
+            os.remove(tmp)
+        return r
+    os.replace(tmp, out)
+    return r
+
+
 def build_vh():
     """Rebuild the harness from /repo's *current working tree*, hooks on."""
     with Lock("go"):
@@ -49,14 +63,11 @@ def build_vh():
         if REPO != "/repo":  # scratch copies used during development point the harness at their own worktree
             sh(["go", "mod", "edit", "-replace", "github.com/sassoftware/relic/v8=" + REPO],
                cwd=os.path.join(VERIF, "harness"), env=GOENV)
-        if os.path.exists(VH):
-            os.remove(VH)
-        r = sh(["go", "build", "-tags", "verif", "-o", VH, "./cmd/vh"], cwd=os.path.join(VERIF, "harness"), env=GOENV)
+        r = _go_build("./cmd/vh", VH, os.path.join(VERIF, "harness"))
         if r.returncode != 0:
             raise Broken("harness does not build against /repo", r.stdout[-4000:])
         for extra in EXTRA_BINARIES:
-            r = sh(["go", "build", "-tags", "verif", "-o", os.path.join(BUILD, extra), "./cmd/" + extra],
-                   cwd=os.path.join(VERIF, "harness"), env=GOENV)
+            r = _go_build("./cmd/" + extra, os.path.join(BUILD, extra), os.path.join(VERIF, "harness"))
             if r.returncode != 0:
                 raise Broken("harness binary %s does not build against /repo" % extra, r.stdout[-4000:])
 
@@ -65,7 +76,7 @@ def build_tool(name):
     """Build one of /verif/tools/<name> (go/ast extractors)."""
     out = os.path.join(BUILD, name)
     with Lock("go"):
-        r = sh(["go", "build", "-o", out, "."], cwd=os.path.join(VERIF, "tools", name), env=GOENV)
+        r = _go_build(".", out, os.path.join(VERIF, "tools", name), tags=False)
         if r.returncode != 0:
             raise Broken("tool %s does not build" % name, r.stdout[-4000:])
     return out
